@@ -56,6 +56,10 @@ type dsys struct {
 	// successful store write) and that nobody released/overwrote since. They must survive any stop.
 	acked  map[string]string
 	fill   []string // filler subscribers allocated by the scripted prefix
+	// conflicted: subscribers whose replicated record could not be applied because the address it names was held
+	// here by another subscriber (remote put refused, or record lost to a competing record at restart). They are
+	// outside the agreement clause until memory and store agree on them again.
+	conflicted map[string]bool
 	lastOp string
 	viols  []explore.Viol
 }
@@ -75,7 +79,7 @@ func subName(i int) string { return subIDs[i] }
 func recKey(sub string) string { return "/allocation/" + poolID + "/" + sub }
 
 func newDsys(c dcfg) *dsys {
-	s := &dsys{c: c, acked: map[string]string{}}
+	s := &dsys{c: c, acked: map[string]string{}, conflicted: map[string]bool{}}
 	_, n, err := net.ParseCIDR(c.base)
 	if err != nil {
 		panic(err)
@@ -414,9 +418,36 @@ func (s *dsys) Apply(op string) (obs string) {
 		}
 		val, _ := json.Marshal(allocator.DistributedAllocation{PoolID: poolID, SubscriberID: a1, Prefix: addr,
 			Epoch: s.da.GetCurrentEpoch(), AllocatedAt: time.Now().UTC()})
+		// conflict: the announced address is held, on this node, by ANOTHER subscriber (the replicated content
+		// itself double-assigns it); only then can "applied as announced" and "no address twice" not both hold
+		conflict := ""
+		for sub, b := range before {
+			if sub != a1 && b == addr {
+				conflict = sub
+			}
+		}
 		s.st.remote(recKey(a1), val, false)
 		got := s.mem(a1)
 		obs = addr + "=>" + got
+		if conflict != "" && got != addr {
+			s.conflicted[a1] = true
+		}
+		// R4 "a change announced by another node is applied with the address it announces": without a conflict
+		// there is nothing that could justify keeping the previous mapping (or none) - the node then disagrees with
+		// the replicated record until its next restart, which changes the subscriber's address. Session mode only:
+		// lease mode cannot install an announced address at all (known finding C12-K1, judged by the clauses below).
+		if !s.lease() && conflict == "" && got != addr {
+			kind := "R4-remote-not-applied/known-subscriber-moved"
+			switch {
+			case before[a1] == "":
+				kind = "R4-remote-not-applied/new-subscriber"
+			case before[a1] == addr:
+				kind = "R4-remote-not-applied/same-address"
+			}
+			rec, _, _ := s.st.record(recKey(a1))
+			s.v(kind, "handleRemoteChange", "remote put announced %s=%s; nobody else holds %s here, yet the node maps %s to %q (before: %q) while the replicated record says %s: a restart would change the address",
+				a1, addr, addr, a1, got, before[a1], rec)
+		}
 		// R4: applied with the announced address, or refused (previous mapping kept)
 		if got != addr && got != before[a1] {
 			kind := "R4-remote-address/moved" // the subscriber had a mapping and it was replaced by a third address
@@ -470,6 +501,7 @@ func (s *dsys) Apply(op string) (obs string) {
 			return "start-failed"
 		}
 		s.down = false
+		s.conflicted = map[string]bool{}
 		s.st.mu.Lock()
 		s.st.perm = 0 // later queries use sorted order (their order cannot matter without a crash in between)
 		s.st.mu.Unlock()
@@ -586,6 +618,9 @@ func (s *dsys) checkRestart(perm int) {
 				if o != sub && r == rec && m[o] == rec {
 					won = true
 				}
+			}
+			if won {
+				s.conflicted[sub] = true
 			}
 			if !won {
 				s.v("R1-restart-lost"+positional, "loadAllocations", "store records %s=%s but after restart %s has no address (store: %v, memory: %v)", sub, rec, sub, recs, m)
